@@ -27,6 +27,7 @@ type SpecEnv struct {
 	// contract instantiations inside lemmas); they are assumed, not proved.
 	assumes []Term
 	inLemma bool
+	tparams map[string]types.Type // type parameters of the function under contract (usable as quantifier types)
 }
 
 func (env *SpecEnv) child() *SpecEnv {
@@ -66,6 +67,9 @@ func (env *SpecEnv) resolveTypeName(name string) (types.Type, error) {
 	}
 	if name == "mathint" {
 		return nil, nil
+	}
+	if t, ok := env.tparams[strings.TrimPrefix(name, "_")]; ok {
+		return t, nil
 	}
 	if obj := types.Universe.Lookup(name); obj != nil {
 		if tn, ok := obj.(*types.TypeName); ok {
@@ -548,6 +552,12 @@ func (env *SpecEnv) field(e *Expr) (SpecVal, error) {
 			if env.lookup != nil {
 				_, isLocal = env.lookup(id.Name)
 			}
+			if !isLocal {
+				if gv, ok := vc.ctx.ghostVars[vc.ctx.ghostKey("", id.Name+"."+e.Op)]; ok && gv.Name == e.Op {
+					t, ty, err := vc.ghostVar(env.cur, gv)
+					return SpecVal{T: t, Ty: ty}, err
+				}
+			}
 			if !isLocal && env.pkg != nil && env.pkg.Scope().Lookup(id.Name) == nil {
 				for _, imp := range env.pkg.Imports() {
 					if imp.Name() == id.Name {
@@ -948,6 +958,50 @@ func (env *SpecEnv) call(e *Expr) (SpecVal, error) {
 			return SpecVal{}, err
 		}
 		return SpecVal{T: v, Ty: ty}, nil
+	case "calls", "ret":
+		// calls(fn): how often the callback parameter fn has been called; ret(fn): its last result
+		if len(args) != 1 || args[0].Kind != EIdent {
+			return SpecVal{}, fmt.Errorf("%s(<callback parameter>)", name)
+		}
+		pn := args[0].Name
+		if name == "calls" {
+			if t, ok := env.cur.ghost["fncalls!"+pn]; ok {
+				return SpecVal{T: t}, nil
+			}
+			return SpecVal{T: vc.fnCallsInit(pn)}, nil
+		}
+		if t, ok := env.cur.ghost["fnret!"+pn]; ok {
+			pv, err := env.ident(pn)
+			var rty types.Type
+			if err == nil && pv.Ty != nil {
+				if sig, ok := pv.Ty.Underlying().(*types.Signature); ok && sig.Results().Len() == 1 {
+					rty = sig.Results().At(0).Type()
+				}
+			}
+			return SpecVal{T: t, Ty: rty}, nil
+		}
+		return SpecVal{}, fmt.Errorf("ret(%s): the callback has not been called on this path", pn)
+	case "string":
+		as, err := evalArgs()
+		if err != nil || len(as) != 1 || as[0].T.Sort != SSlice {
+			return SpecVal{}, fmt.Errorf("string(b): %v", err)
+		}
+		vc.DeclareFun("bytesstr", []Sort{SSlice}, SStr)
+		return SpecVal{T: App(SStr, "bytesstr", as[0].T), Ty: types.Typ[types.String]}, nil
+	case "strlt":
+		as, err := evalArgs()
+		if err != nil || len(as) != 2 || as[0].T.Sort != SStr || as[1].T.Sort != SStr {
+			return SpecVal{}, fmt.Errorf("strlt(a, b): %v", err)
+		}
+		vc.DeclareFun("strlt", []Sort{SStr, SStr}, SBool)
+		return SpecVal{T: App(SBool, "strlt", as[0].T, as[1].T)}, nil
+	case "strbytes":
+		as, err := evalArgs()
+		if err != nil || len(as) != 1 || as[0].T.Sort != SStr {
+			return SpecVal{}, fmt.Errorf("strbytes(s): %v", err)
+		}
+		vc.DeclareFun("strbytes", []Sort{SStr}, SSlice)
+		return SpecVal{T: App(SSlice, "strbytes", as[0].T), Ty: types.NewSlice(types.Typ[types.Byte])}, nil
 	case "received":
 		// received(ch): number of values received from channel ch so far (ghost)
 		as, err := evalArgs()
